@@ -181,6 +181,7 @@ fn case<S: Scheme>(ctx: &mut Ctx, idx: u64, rng: &mut ChaCha20Rng, large: bool) 
 }
 
 pub fn run(ctx: &mut Ctx) {
+    crate::schemes::set_custom_params(true);
     for_each_scheme!(ctx, S, {
         let n = ctx.n(24, 300) / <S as Scheme>::WEIGHT.max(1);
         ctx.run_cases(<S as Scheme>::NAME, n.max(3), |ctx, i, rng| case::<S>(ctx, i, rng, false));
